@@ -298,7 +298,8 @@ def _build(case, uid, log, parsed):
     setattr(mod, registry.__name__, registry)
     world["classes"].append(registry)
 
-    for si, s in enumerate(case["sets"]):
+    def define_set(si):
+        s = case["sets"][si]
         sdict = {"__module__": modname}
         for im in s:
             p = im["point"]
@@ -317,16 +318,20 @@ def _build(case, uid, log, parsed):
         setattr(mod, cls.__name__, cls)
         world["classes"].append(cls)
 
-    for p, pt in enumerate(world["points"]):
-        def pbody(value, p=p):
-            parsed.append([p, value])
-            return ["parsed", p, value]
-        pbody.__name__ = pbody.__qualname__ = "parser%d_%d" % (uid, p)
-        pbody.__module__ = modname
-        setattr(mod, pbody.__name__, pbody)
-        comp = parser(pt)(pbody)
-        world["parsers"].append(comp)
-        comps.append(comp)
+    def define_parsers():
+        for p, pt in enumerate(world["points"]):
+            def pbody(value, p=p):
+                parsed.append([p, value])
+                return ["parsed", p, value]
+            pbody.__name__ = pbody.__qualname__ = "parser%d_%d" % (uid, p)
+            pbody.__module__ = modname
+            setattr(mod, pbody.__name__, pbody)
+            comp = parser(pt)(pbody)
+            world["parsers"].append(comp)
+            comps.append(comp)
+
+    world["define_set"] = define_set
+    world["define_parsers"] = define_parsers
     return world
 
 
@@ -342,91 +347,110 @@ def check_world(case):
     try:
         world = _build(case, uid, log, parsed)
         ctxs, points, impls, parsers = world["ctxs"], world["points"], world["impls"], world["parsers"]
-        graph = {}
-        for ps in parsers:
-            graph.update(dr.get_dependency_graph(ps))
-        for active in range(case["nctx"]):
-            del log[:]
-            del parsed[:]
-            broker = dr.Broker()
-            broker.store_skips = bool(case.get("store_skips"))
-            broker[ctxs[active]] = ctxs[active]()
-            if case.get("driver") == "run_all":
-                dr.run_all(dict(graph), broker=broker)
-            else:
-                dr.run(dict(graph), broker=broker)
-            calls = {}
-            for e in log:
-                if e[0] == "i":
-                    calls[(e[1], e[2])] = calls.get((e[1], e[2]), 0) + 1
-            for m in model(case, active):
-                p = m["point"]
-                pt = points[p]
-                ctx = dict(active_context=active, point=p, latest=m["latest"],
-                           calls=sorted([list(k), v] for k, v in calls.items()))
-                for sid in m["must_not_run"]:
-                    key = (sid[0], sid[1])
-                    what = sid[2]
-                    if calls.get(key):
-                        raise Violation("implementation of set %d for point %d (%s) was executed with "
-                                        "context %d active" % (sid[0], p, what, active), **ctx)
-                    if impls[key] in broker:
-                        raise Violation("implementation of set %d for point %d has a value in the broker "
-                                        "although it must not contribute under context %d" % (sid[0], p, active),
-                                        **ctx)
-                if m["latest"] is not None:
-                    n = calls.get((m["latest"][0], m["latest"][1]), 0)
-                    if n != (1 if m["latest_runs"] else 0):
-                        raise Violation("latest implementation for the active context (set %d, point %d) ran "
-                                        "%d time(s), expected %d" % (m["latest"][0], p, n, 1 if m["latest_runs"] else 0),
-                                        **ctx)
-                seen = [v for (pp, v) in parsed if pp == p]
-                if m["mode"] == "value":
-                    if pt not in broker:
-                        raise Violation("point %d is absent under context %d although its latest implementation "
-                                        "(set %d) produced a value" % (p, active, m["latest"][0]), expected=m["value"], **ctx)
-                    if broker[pt] != m["value"]:
-                        raise Violation("point %d holds %r under context %d, the latest implementation for that "
-                                        "context (set %d) produced %r" % (p, broker[pt], active, m["latest"][0], m["value"]),
-                                        **ctx)
-                    want_seen = m["value"] if isinstance(m["value"], list) else [m["value"]]
-                    if seen != want_seen:
-                        raise Violation("parser on point %d was handed %r, expected %r" % (p, seen, want_seen), **ctx)
-                    if parsers[p] not in broker:
-                        raise Violation("parser on point %d has no value although the spec is present" % p, **ctx)
-                elif m["mode"] == "absent":
-                    if pt in broker:
-                        raise Violation("point %d holds %r under context %d although the latest implementation "
-                                        "for that context yields nothing (or none is declared for it)"
-                                        % (p, broker[pt], active), **ctx)
-                    if seen or parsers[p] in broker:
-                        raise Violation("parser on point %d fired although the spec is absent" % p, seen=seen, **ctx)
+        # "every sequence of spec-set definitions": a spec set may be defined after an evaluation has
+        # already taken place (plugins loaded later); eval_after lists the definitions after which the
+        # world is evaluated before the next spec set is defined
+        eval_after = sorted(set(k for k in case.get("eval_after", []) if k < len(case["sets"]) - 1))
+
+        def evaluate(nsets):
+            nontrivial_here = False
+            for active in range(case["nctx"]):
+                del log[:]
+                del parsed[:]
+                graph = {}
+                for ps in parsers:
+                    graph.update(dr.get_dependency_graph(ps))
+                broker = dr.Broker()
+                broker.store_skips = bool(case.get("store_skips"))
+                broker[ctxs[active]] = ctxs[active]()
+                if case.get("driver") == "run_all":
+                    dr.run_all(dict(graph), broker=broker)
                 else:
-                    labels.add("value-unasserted(context-free impl)")
-                    # still: the parser sees what the point holds, nothing else
-                    if pt in broker:
-                        v = broker[pt]
-                        if seen != (v if isinstance(v, list) else [v]):
-                            raise Violation("parser on point %d was handed %r but the point holds %r" % (p, seen, v), **ctx)
-                    elif seen:
-                        raise Violation("parser on point %d fired although the spec is absent" % p, seen=seen, **ctx)
-                # labels / non-triviality
-                labels.add("impls=%s" % (m["n_impls"] if m["n_impls"] < 4 else "4+"))
-                labels.add("cands=%s" % (m["n_cands"] if m["n_cands"] < 3 else "3+"))
-                if m["n_cands"] >= 2:
-                    labels.add("override")
-                if m["mixed"] and m["n_cands"] >= 2:
-                    labels.add("override+multi-context-declaration")
-                if m["n_cands"] >= 2 and m["mode"] == "absent":
-                    labels.add("override+latest-yields-nothing")
-                if m["latest"] is not None and not m["latest_runs"]:
-                    labels.add("latest-unmet-deps")
-                if m["n_free"]:
-                    labels.add("has-context-free-impl")
-                    if m["mode"] == "value" and m["n_cands"]:
-                        labels.add("declared-beats-earlier-context-free")
-                if m["n_impls"] >= 3 and m["n_cands"] >= 2 and (m["mixed"] or m["mode"] == "absent"):
-                    nontrivial = True
+                    dr.run(dict(graph), broker=broker)
+                calls = {}
+                for e in log:
+                    if e[0] == "i":
+                        calls[(e[1], e[2])] = calls.get((e[1], e[2]), 0) + 1
+                for m in model(dict(case, sets=case["sets"][:nsets]), active):
+                    p = m["point"]
+                    pt = points[p]
+                    ctx = dict(active_context=active, point=p, latest=m["latest"],
+                               calls=sorted([list(k), v] for k, v in calls.items()))
+                    for sid in m["must_not_run"]:
+                        key = (sid[0], sid[1])
+                        what = sid[2]
+                        if calls.get(key):
+                            raise Violation("implementation of set %d for point %d (%s) was executed with "
+                                            "context %d active" % (sid[0], p, what, active), **ctx)
+                        if impls[key] in broker:
+                            raise Violation("implementation of set %d for point %d has a value in the broker "
+                                            "although it must not contribute under context %d" % (sid[0], p, active),
+                                            **ctx)
+                    if m["latest"] is not None:
+                        n = calls.get((m["latest"][0], m["latest"][1]), 0)
+                        if n != (1 if m["latest_runs"] else 0):
+                            raise Violation("latest implementation for the active context (set %d, point %d) ran "
+                                            "%d time(s), expected %d" % (m["latest"][0], p, n, 1 if m["latest_runs"] else 0),
+                                            **ctx)
+                    seen = [v for (pp, v) in parsed if pp == p]
+                    if m["mode"] == "value":
+                        if pt not in broker:
+                            raise Violation("point %d is absent under context %d although its latest implementation "
+                                            "(set %d) produced a value" % (p, active, m["latest"][0]), expected=m["value"], **ctx)
+                        if broker[pt] != m["value"]:
+                            raise Violation("point %d holds %r under context %d, the latest implementation for that "
+                                            "context (set %d) produced %r" % (p, broker[pt], active, m["latest"][0], m["value"]),
+                                            **ctx)
+                        want_seen = m["value"] if isinstance(m["value"], list) else [m["value"]]
+                        if seen != want_seen:
+                            raise Violation("parser on point %d was handed %r, expected %r" % (p, seen, want_seen), **ctx)
+                        if parsers[p] not in broker:
+                            raise Violation("parser on point %d has no value although the spec is present" % p, **ctx)
+                    elif m["mode"] == "absent":
+                        if pt in broker:
+                            raise Violation("point %d holds %r under context %d although the latest implementation "
+                                            "for that context yields nothing (or none is declared for it)"
+                                            % (p, broker[pt], active), **ctx)
+                        if seen or parsers[p] in broker:
+                            raise Violation("parser on point %d fired although the spec is absent" % p, seen=seen, **ctx)
+                    else:
+                        labels.add("value-unasserted(context-free impl)")
+                        # still: the parser sees what the point holds, nothing else
+                        if pt in broker:
+                            v = broker[pt]
+                            if seen != (v if isinstance(v, list) else [v]):
+                                raise Violation("parser on point %d was handed %r but the point holds %r" % (p, seen, v), **ctx)
+                        elif seen:
+                            raise Violation("parser on point %d fired although the spec is absent" % p, seen=seen, **ctx)
+                    # labels / non-triviality
+                    labels.add("impls=%s" % (m["n_impls"] if m["n_impls"] < 4 else "4+"))
+                    labels.add("cands=%s" % (m["n_cands"] if m["n_cands"] < 3 else "3+"))
+                    if m["n_cands"] >= 2:
+                        labels.add("override")
+                    if m["mixed"] and m["n_cands"] >= 2:
+                        labels.add("override+multi-context-declaration")
+                    if m["n_cands"] >= 2 and m["mode"] == "absent":
+                        labels.add("override+latest-yields-nothing")
+                    if m["latest"] is not None and not m["latest_runs"]:
+                        labels.add("latest-unmet-deps")
+                    if m["n_free"]:
+                        labels.add("has-context-free-impl")
+                        if m["mode"] == "value" and m["n_cands"]:
+                            labels.add("declared-beats-earlier-context-free")
+                    if m["n_impls"] >= 3 and m["n_cands"] >= 2 and (m["mixed"] or m["mode"] == "absent"):
+                        nontrivial_here = True
+            return nontrivial_here
+
+        if eval_after:
+            world["define_parsers"]()
+        for si in range(len(case["sets"])):
+            world["define_set"](si)
+            if si in eval_after:
+                nontrivial = evaluate(si + 1) or nontrivial
+                labels.add("evaluated-between-definitions")
+        if not eval_after:
+            world["define_parsers"]()
+        nontrivial = evaluate(len(case["sets"])) or nontrivial
         labels.add("driver=%s" % case.get("driver", "run"))
     finally:
         if world is not None:
@@ -484,8 +508,12 @@ def _world(draw, tier):
                 im["req"] = ["c%d" % draw(ctx_idx), "h%d" % draw(st.integers(0, len(helpers) - 1))]
             s.append(im)
         sets.append(s)
-    return {"nctx": nctx, "points": points, "helpers": helpers, "sets": sets,
+    case = {"nctx": nctx, "points": points, "helpers": helpers, "sets": sets,
             "store_skips": draw(st.booleans()), "driver": draw(st.sampled_from(["run", "run", "run_all"]))}
+    if len(sets) >= 2 and draw(st.integers(0, 2)) == 0:
+        # evaluate between definitions (a spec set defined after an evaluation already happened)
+        case["eval_after"] = sorted(draw(st.sets(st.integers(0, len(sets) - 2), min_size=1, max_size=2)))
+    return case
 
 
 def strat_world(tier):
